@@ -323,6 +323,69 @@ func lenArgs(c *ast.CallExpr) int {
 	return len(c.Args)
 }
 
+// c12BigCases: sizes a user can reach and a per-value generator does not — more than 2^14 distinct string
+// literals in one File (with early ones repeated at the end), and single literals above 1 MiB that mix
+// multi-byte characters.
+func c12BigCases(r *mon.Run) {
+	{
+		n := 20000
+		strs := make([]string, 0, n+200)
+		for i := 0; i < n; i++ {
+			strs = append(strs, fmt.Sprintf("message-%d", i))
+		}
+		for i := 0; i < 200; i++ {
+			strs = append(strs, fmt.Sprintf("message-%d", i*7)) // early ones again
+		}
+		c := mon.Case{Gen: "many-strings", Seed: r.Seed}
+		for mode := 0; mode < 2; mode++ {
+			src, fail := stringBatchFile(strs, mode == 1, 0)
+			if fail != "" {
+				r.Violate("string-render-failure", c, "a File with %d string literals does not render: %s", len(strs), mon.Trunc(fail, 200))
+				continue
+			}
+			probs, fatal := judgeStringSource(src, strs)
+			for i, p := range probs {
+				r.Violate("string-literal", c, "string %d of a File with %d literals (%q): %s", i, len(strs), strs[i], p)
+			}
+			if fatal != "" {
+				r.Violate("string-token-stream", c, "%s", fatal)
+			}
+		}
+		r.Count("strings_in_one_file", int64(len(strs)))
+	}
+	rnd := r.Rand("C12/huge", 0)
+	for k := 0; k < r.Pick(2, 12); k++ {
+		var sb strings.Builder
+		size := 1<<20 + rnd.Intn(1<<19)
+		alphabet := []string{"a", "é", "日", "😀", "z", " ", "\n"}
+		for sb.Len() < size {
+			// runs of one alphabet symbol of random length, so that multi-byte characters straddle every kind of boundary
+			sym := alphabet[rnd.Intn(len(alphabet))]
+			for i, m := 0, 1+rnd.Intn(5000); i < m; i++ {
+				sb.WriteString(sym)
+			}
+		}
+		s := sb.String()
+		c := mon.Case{Gen: "huge-string", Seed: r.Seed, Index: int64(k)}
+		for mode := 0; mode < 2; mode++ {
+			src, fail := stringBatchFile([]string{s, "after"}, mode == 1, 0)
+			if fail != "" {
+				r.Violate("string-render-failure", c, "a %d-byte string literal does not render: %s", len(s), mon.Trunc(fail, 200))
+				continue
+			}
+			probs, fatal := judgeStringSource(src, []string{s, "after"})
+			for _, p := range probs {
+				r.Violate("string-literal", c, "%d-byte string: %s", len(s), mon.Trunc(p, 300))
+			}
+			if fatal != "" {
+				r.Violate("string-token-stream", c, "%s", fatal)
+			}
+		}
+		r.Eval(fmt.Sprintf("huge|%d|%d", k, len(s)), true)
+		r.Count("huge_strings", 1)
+	}
+}
+
 // ---- runes ----
 
 func judgeRuneSource(src []byte, runes []rune) (problems map[int]string, fatal string) {
@@ -531,6 +594,7 @@ func runC12(r *mon.Run) {
 	c12NegControls(r)
 	sb := c12StringBatches(r)
 	mon.Parallel(len(sb), func(i int) { c12StringBatch(r, sb, i) })
+	c12BigCases(r)
 	rb, exh := c12RuneBatches(r)
 	mon.Parallel(len(rb), func(i int) { c12RuneBatch(r, rb, i) })
 	c12Bytes(r)
